@@ -169,6 +169,27 @@ fn inv_walk(n: &XmlNode, bad: &mut Vec<String>, seen: &mut Vec<usize>, depth: us
             bad.push(format!("node_value of {}: {:?}, the typed accessor says {:?}", id, nv, w));
         }
     }
+    // the value an attribute reports is the value its items denote NOW (compared modulo white space, which the declared type
+    // may collapse): an attribute whose items are all Text nodes reports their data, one after the other
+    if let XmlNode::Attribute(a) = n {
+        let kids = n.child_nodes();
+        let mut all_text = true;
+        let mut cat = String::new();
+        for i in 0..kids.length() {
+            match kids.item(i) {
+                Some(XmlNode::Text(t)) => cat.push_str(&t.data().unwrap_or_default()),
+                _ => all_text = false,
+            }
+        }
+        if all_text {
+            let squeeze = |s: &str| s.split(|c| c == ' ' || c == '\t' || c == '\r' || c == '\n').filter(|p| !p.is_empty()).collect::<Vec<_>>().join(" ");
+            if let Ok(v) = a.value() {
+                if squeeze(&v) != squeeze(&cat) {
+                    bad.push(format!("attribute {} reports the value {:?}, its items hold {:?}", id, v, cat));
+                }
+            }
+        }
+    }
     if let XmlNode::Element(el) = n {
         if let Some(map) = n.attributes() {
             for i in 0..map.length() {
@@ -863,7 +884,22 @@ fn dom_with(args: &[String], expanded: bool) -> String {
     st.number(&root, 0);
     let mut out: Vec<String> = vec![];
     out.push(format!("init {{{}}} {}", snapshot(&st), monitors(&st, &exprs)));
+    // `quiet` / `loud` among the operations: while quiet, the calls are made and NOTHING is read in between - no dump, no
+    // navigation, no order keys, no query, no serialization - so that whatever a call leaves behind meets the next call as it is
+    // (reading order keys renumbers, a query clears caches: observing after every step hides what several calls do together)
+    let mut quiet = false;
     for op in &args[2..] {
+        if op == "quiet" || op == "loud" {
+            quiet = op == "quiet";
+            let snap = if quiet {
+                "{quiet} inv=skip ord=skip rt=skip q=skip".to_string()
+            } else {
+                catch_unwind(AssertUnwindSafe(|| format!("{{{}}} {}", snapshot(&st), monitors(&st, &exprs))))
+                    .unwrap_or_else(|_| "{dump-panic}".to_string())
+            };
+            out.push(format!("ok {}", snap));
+            continue;
+        }
         let before = st.handles.len();
         let r = catch_unwind(AssertUnwindSafe(|| apply(&mut st, op)));
         let status = match r {
@@ -874,6 +910,10 @@ fn dom_with(args: &[String], expanded: bool) -> String {
         let name = op.split(':').next().unwrap_or("");
         if ["ce", "ct", "cc", "cd", "cp", "ca", "cr", "st", "ga", "ch", "gni"].contains(&name) && st.handles.len() == before {
             st.handles.push(None);
+        }
+        if quiet {
+            out.push(format!("{} {{quiet}} inv=skip ord=skip rt=skip q=skip", status));
+            continue;
         }
         let snap = catch_unwind(AssertUnwindSafe(|| format!("{{{}}} {}", snapshot(&st), monitors(&st, &exprs))))
             .unwrap_or_else(|_| "{dump-panic}".to_string());
